@@ -50,7 +50,9 @@ func translate(pkgPatterns []string, outRootDir string, modDir string,
 		if err != nil {
 			fmt.Fprintln(os.Stderr, red(err.Error()))
 			someError = true
-			if !ignoreErrors {
+			// a package that could not be loaded, or was refused as a whole,
+			// has no translation to write
+			if !ignoreErrors || f.PkgPath == "" {
 				continue
 			}
 		}
